@@ -297,7 +297,7 @@ impl Family for ThroughRows {
             return Ok(());
         }
         st.bump("rows_accepted");
-        let dd = decode_all(&o.sim.out, &conv, &s.last_seq, 3, false).map_err(|e| Violation::new("row-undecodable", format!("{}: {}", what, e)))?;
+        let dd = decode_all(delivered(&o), &conv, &s.last_seq, 3, false).map_err(|e| Violation::new("row-undecodable", format!("{}: {}", what, e)))?;
         match &dd.replies[1][..] {
             [Unit::ResultSet { rows, .. }] if rows.len() == 1 => {
                 let want = if unsigned { Cell::Bin(BinVal::UInt(num as u64)) } else { Cell::Bin(BinVal::Int(num as i64)) };
